@@ -924,7 +924,8 @@ def probe(ctx, writers):
     wr = None
     if writers:
         wr = run_writers(ctx, t)
-    oracle_c04(ctx, t, units, ures, lookups, it, wr)
+    if ctx.prop == "C04":
+        oracle_c04(ctx, t, units, ures, lookups, it, wr)
     if ctx.prop == "C15":
         oracle_c15(ctx, t, units)
     ctx.expect_default = {}
@@ -1166,6 +1167,16 @@ SCRIPT_ALPHABET = ["add_column", "setitem", "set_col_unit", "df_insert", "df_del
                    "df_assign", "df_astype", "df_loc_append", "df_drop_rows", "select", "copy", "sort_index",
                    "reindex", "concat", "merge", "assign", "drop", "astype", "rows", "rewrap"]
 EX_PLAN = (["a", "b", "c"], ["f", "s", "b"], 2, "good", True)
+# second enumeration, aimed at the remembered-state short cut: emptiness transitions around type-changing edits
+E_ALPHABET = ["df_drop_rows", "df_loc_append", "df_insert", "df_assign", "setitem", "add_column", "df_astype", "copy"]
+E_PLANS = [(["a", "b"], ["f", "s"], 1, "good", True), (["a", "b"], ["f", "s"], 0, "wrong", True)]
+
+
+def scripts_of(alphabet, depth):
+    res = [()]
+    for d in range(1, depth + 1):
+        res += list(itertools.product(alphabet, repeat=d))
+    return res
 
 
 def compare(out, what, case, exp, ans):
@@ -1197,14 +1208,15 @@ def run(tier, seed, model_ok, translator, search=False, prop="C04", weights=None
                 "select, copy, sort_index, reindex, concat both axes, merge, assign, drop, astype, fillna, replace, rename, "
                 "row selections incl. empty, set_axis, iloc); after every operation the table is consulted (units, per-column "
                 "lookup, iteration, writers) and compared with the model step by step; bounded-exhaustive scripts over a "
-                "22-operation alphabet from a fixed 3-column table. Non-trivial: history with >= 1 successful consultation of "
+                "22-operation alphabet from a fixed 3-column table and over an 8-operation alphabet around emptiness "
+                "transitions. Non-trivial: history with >= 1 successful consultation of "
                 "a table with rows after an operation; distinct by (start table, operation descriptions).")
     thorough = tier == "thorough"
-    n_rand = 2600 if thorough else 330
+    n_rand = 2600 if thorough else 450
     depth_max = 10
     ex_depth = 3 if thorough else 2
     if search:
-        n_rand, ex_depth = 4000, 2
+        n_rand, ex_depth, thorough = 4000, 2, False
     ops, pend = [], []
 
     def add(res):
@@ -1223,14 +1235,14 @@ def run(tier, seed, model_ok, translator, search=False, prop="C04", weights=None
                 pend.append((what, {"seed": case["seed"], "stream": case["stream"], "index": case["index"], "fn": fop}, fexp))
 
     # bounded-exhaustive scripts (operation *kinds* exhaustive, arguments drawn from the history's own stream)
-    scripts = [()]
-    for d in range(1, ex_depth + 1):
-        scripts += list(itertools.product(SCRIPT_ALPHABET, repeat=d))
-    if ex_depth == 3 and search:
-        scripts = scripts[:600]
+    scripts = scripts_of(SCRIPT_ALPHABET, ex_depth)
     for i, sc in enumerate(scripts):
         add(run_history(out, prop, seed, "ex%d" % ex_depth, i, len(sc), weights=None, plan=EX_PLAN, script=list(sc)))
-    out.count("exhaustive_scripts", len(scripts))
+    e_depth = 4 if thorough else 3
+    escripts = [sc for sc in scripts_of(E_ALPHABET, e_depth) if len(sc) >= 2]
+    for i, sc in enumerate(escripts):
+        add(run_history(out, prop, seed, "exE%d" % e_depth, i, len(sc), weights=None, plan=E_PLANS[i % 2], script=list(sc)))
+    out.count("exhaustive_scripts", len(scripts) + len(escripts))
     for i in range(n_rand):
         rng_d = make_rng(seed, f"{prop}:depth:{i}")
         depth = rng_d.choice([1, 2, 3, 4, 5, 6, 8, depth_max])
@@ -1243,8 +1255,9 @@ def run(tier, seed, model_ok, translator, search=False, prop="C04", weights=None
             compare(out, what, case, exp, ans)
     out.exhaustive = False
     out.notes.append(f"bounded-exhaustive part: all {len(scripts)} operation-kind scripts of length <= {ex_depth} over "
-                     f"{len(SCRIPT_ALPHABET)} kinds from one fixed start table (arguments random): validates the model against "
-                     "the code, it is not the proof")
+                     f"{len(SCRIPT_ALPHABET)} kinds from one fixed start table, and all {len(escripts)} scripts of length 2..{e_depth} "
+                     f"over {len(E_ALPHABET)} kinds around emptiness transitions from two start tables (arguments random): "
+                     "validates the model against the code, it is not the proof")
     return out
 
 
@@ -1255,12 +1268,11 @@ def replay(rep, prop="C04", weights=None):
         return False, "replay file has no input (no-failing-input-found): " + str(rep.get("broken"))[:300]
     out = Outcome()
     seed, stream, index = int(inp["seed"]), inp["stream"], int(inp["index"])
-    if stream.startswith("ex"):
-        d = int(stream[2:])
-        scripts = [()]
-        for k in range(1, d + 1):
-            scripts += list(itertools.product(SCRIPT_ALPHABET, repeat=k))
-        sc = scripts[index]
+    if stream.startswith("exE"):
+        sc = [x for x in scripts_of(E_ALPHABET, int(stream[3:])) if len(x) >= 2][index]
+        run_history(out, prop, seed, stream, index, len(sc), plan=E_PLANS[index % 2], script=list(sc))
+    elif stream.startswith("ex"):
+        sc = scripts_of(SCRIPT_ALPHABET, int(stream[2:]))[index]
         run_history(out, prop, seed, stream, index, len(sc), plan=EX_PLAN, script=list(sc))
     else:
         depth = make_rng(seed, f"{prop}:depth:{index}").choice([1, 2, 3, 4, 5, 6, 8, 10])
